@@ -366,6 +366,8 @@ func (l *Lexer) readString() (string, int, int, int) {
 			if l.skipNewlineWhitespace() {
 				l.skipWhitespace()
 				sb.WriteRune(' ')
+				// The string can end right after the skipped white space.
+				continue
 			}
 			sb.WriteRune(l.ch)
 			l.readChar()
